@@ -3,6 +3,50 @@ import json
 import os
 
 
+def judge_by_spec(ctx, recs, cases):
+    groups = {}
+    for r in recs:
+        ex = r.get("extra") if isinstance(r, dict) else None
+        if r.get("status") not in ("ok", "divergence") or not ex or not ex.get("cands"):
+            continue
+        case = cases[int(r["case"][1:])]
+        key = json.dumps([case["params"], case["accounts"]], sort_keys=True)
+        for c in ex["cands"]:
+            if c["sel"]:
+                groups.setdefault(key, []).append(dict(id="%s:%d" % (r["case"], c["step"]), bt=c["bt"], sel=c["sel"],
+                                                       comm=c["comm"]))
+    judged = 0
+    for key, items in groups.items():
+        params, accounts = json.loads(key)
+        consts = dict(Accounts="{" + ", ".join('"%s"' % a for a in accounts) + "}", Th=params["Th"], Price=params["Price"],
+                      MinStep=params["MinStep"], InitBal=params["InitBal"])
+        data = "".join(json.dumps(x, sort_keys=True) + "\n" for x in items)
+        r = ctx.tlc("exec", "Check_TxPool", "Check_TxPool.cfg", constants=consts, workers=1, count=False, timeout=900,
+                    extra_files={"cands.ndjson": data}, label="spec verdict on %d real Candidate outputs" % len(items))
+        from vlib import parse_tagged
+        seen = set()
+        for j in parse_tagged(r.printed, "R"):
+            if j["id"] in seen:
+                continue
+            seen.add(j["id"])
+            judged += 1
+            if j["why"] != "ok":
+                cid, step = j["id"].split(":")
+                item = [x for x in items if x["id"] == j["id"]][0]
+                ctx.violations.append(dict(
+                    key="txpool:candidate-invalid:" + j["why"],
+                    what="step %s: the list TransactionPool.Candidate(block time %d) returned is not a valid block by the "
+                         "specification's bookkeeping (%s): %s (initial balance %d, step price %d, threshold %d)"
+                         % (step, item["bt"], j["why"],
+                            " ".join("#%d(%s->%s value %d limit %d ts %d)" % (t["n"], t["from"], t["to"], t["value"], t["limit"], t["ts"])
+                                     for t in item["sel"]), params["InitBal"], params["Price"], params["Th"]),
+                    case=cid, detail=dict(behaviour=cases[int(cid[1:])])))
+        if len(seen) != len(items):
+            from vlib import MachineryError
+            raise MachineryError("spec verdict: %d of %d Candidate outputs judged" % (len(seen), len(items)))
+    ctx.log("spec verdict: %d real Candidate outputs judged by TxPool.tla" % judged)
+
+
 def run(ctx):
     gen = dict(Accounts='{"a", "b", "c"}', Values="{0, 1, 2, 3}", Limits="{0, 1, 2}", MaxTs=6, Th=3, Price=1, MinStep=1,
                InitBal=5, MaxN=8, MaxPool=6)
@@ -12,7 +56,9 @@ def run(ctx):
         inp = ctx.path("in", "behaviours.ndjson")
         with open(inp, "w") as fh:
             fh.write(json.dumps(d["behaviour"]) + "\n")
-        ctx.absorb(ctx.go_replay("txpool", "TestReplay", inp))
+        recs = ctx.go_replay("txpool", "TestReplay", inp)
+        ctx.absorb(recs)
+        judge_by_spec(ctx, recs, [d["behaviour"]])
         return ctx.finish(rule="re-execution of one recorded behaviour")
     # 1. exhaustive: every pool built from <= MaxN transfers, every commit, every Candidate(bt, max)
     if not os.environ.get("VERIF_DEV_SKIP_MC"):
@@ -26,9 +72,9 @@ def run(ctx):
                             timeout=ctx.pick(600, 1500), label="3 transfers of value 2, balance 3 (cumulative exhaustion)")
         ctx.check_coverage(r, ["Add", "Commit", "Candidate"])
         if not ctx.quick():
-            big = dict(small, MaxTs=2, MaxN=3, MaxPool=3)
+            big = dict(small, MaxTs=2, MaxN=3, MaxPool=3, Limits="{1}")   # (self-transfers doubled the sender/receiver pairs)
             r = ctx.model_check("exec", "MC_TxPool", "MC_TxPool.cfg", constants=big, coverage=True, timeout=3000,
-                                label="3 transfers, all fields, 2 timestamps")
+                                label="3 transfers incl. self-transfers, 2 values, 2 timestamps")
             ctx.check_coverage(r, ["Add", "Commit", "Candidate"])
         ctx.exhaustive = True
     # 2. random walks over a larger universe (3 accounts, 8 transfers, pool of 6)
@@ -58,10 +104,15 @@ def run(ctx):
     # 3. replay into service.TransactionPool; Candidate output re-validated as a block by a real transition
     recs = ctx.go_replay("txpool", "TestReplay", inp, shards=ctx.pick(2, 4), timeout=ctx.pick(900, 2400))
     ctx.absorb(recs)
+    # 4. the verdict evaluated by the SPECIFICATION on what the real Candidate returned: every selected transaction in the
+    #    window, not committed / repeated, and affordable under the cumulative effect of the ones selected before it
+    #    (WhyInvalid of TxPool.tla; independent of the real PreValidate, which the validating transition shares)
+    judge_by_spec(ctx, recs, cases)
     for c in cases[:2]:
         ctx.sample([{k: s[k] for k in ("op", "tx", "direct", "res", "bt", "max", "sel", "pool")} for s in c["steps"]][:10])
     return ctx.finish(
-        rule="a case = one TLC-generated sequence of TransactionPool.Add (new and repeated signed v3 transfers, direct "
+        rule="(every real Candidate output is additionally judged by TxPool.tla's WhyInvalid: window, ids, cumulative balance) "
+             "a case = one TLC-generated sequence of TransactionPool.Add (new and repeated signed v3 transfers, direct "
              "or relayed), commits of some of them to the locator manager + RemoveList, and Candidate(block time, max "
              "count) calls; every non-empty Candidate output is validated as a block by a real transition on the same "
              "parent state (verdict), selection and pool content are compared with the specification (diagnostic); "
